@@ -32,3 +32,14 @@ Fixpoint loop_ctl {S R : Type} (fuel : nat) (it : S -> res (ctl S R)) (s : S) : 
 
 (* std::string_view::substr(i, n) on a byte list *)
 Definition key_substr (k : list N) (i n : N) : list N := firstn (N.to_nat n) (skipn (N.to_nat i) k).
+
+(* a read-only pass over a range (for (auto it = r.rbegin(); it != r.rend(); ++it)): the body sees one element at a time *)
+Fixpoint foreach_res {S A : Type} (l : list A) (f : S -> A -> res S) (s : S) : res S :=
+  match l with
+  | [] => Ok s
+  | x :: t => do s' <- f s x; foreach_res t f s'
+  end.
+
+(* std::string::resize(n): truncates, or pads with NUL bytes *)
+Definition key_resize (k : list N) (n : N) : list N :=
+  firstn (N.to_nat n) k ++ repeat 0 (N.to_nat n - length k).
